@@ -251,7 +251,7 @@ def starcycle_scenario(rng, root):
         own[m] = '%s_own' % m
         body = 'from %s import *\n%s = %d\n' % (nxt, own[m], j)
         if rng.random() < 0.5:
-            body += 'def %s_fn():\n    return %s\n' % (m, own[mods[(j + 1) % k]])
+            body += 'def %s_fn():\n    return %s_own\n' % (m, nxt)
         open(os.path.join(root, m + '.py'), 'w').write(body)
     fn = os.path.join(root, 'user.py')
     reqs = []
@@ -310,6 +310,7 @@ def project_histories(ctx, nproj, nseq):
             if any(a != res['fresh'][i] for seq, ans in zip(k['sequences'], res['seq']) for i, a in zip(seq, ans)):
                 ctx.known_finding(KNOWN_STAR, 'ring of three star-importing project modules: completion after `cyca.` depends on which '
                                   'module of the ring was asked about first (input: corpus/C04/known_%s.json)' % KNOWN_STAR)
+    jobs = []
     for pi in range(nproj):
         for kind, gen in (('relimport', relimport_scenario), ('instance', instance_scenario),
                           ('starcycle', starcycle_scenario), ('qualified', qualified_import_scenario)):
@@ -329,24 +330,32 @@ def project_histories(ctx, nproj, nseq):
                 seqs.append(p)
             jpath = os.path.join(root, 'job.json')
             json.dump({'root': root, 'requests': reqs, 'sequences': seqs}, open(jpath, 'w'))
-            rc, out, err = common.run_py(wpath, [jpath], timeout=600)
-            if rc != 0:
-                raise RuntimeError('api worker failed: ' + err[-1500:])
-            res = json.loads(out)
-            ctx.histogram('project_scenario', kind)
-            for seq, answers in zip(seqs, res['seq']):
-                for pos, (i, a) in enumerate(zip(seq, answers)):
-                    ctx.count(('proj', kind, pi, tuple(seq[:pos + 1])), nontrivial=pos > 0)
-                    if a != res['fresh'][i]:
-                        bad += 1
-                        if bad <= 5:
-                            files = {os.path.relpath(os.path.join(d, f), root): open(os.path.join(d, f)).read()
-                                     for d, _, fs in os.walk(root) for f in fs if f.endswith('.py')}
-                            ctx.violation('%s project: request %s at %s answered differently after %d earlier requests on the same '
-                                          'Project: %r vs fresh %r' % (kind, reqs[i][0], reqs[i][2], pos, str(a)[:160], str(res['fresh'][i])[:160]),
-                                          {'kind': 'project-history', 'scenario': kind, 'files': files, 'requests': reqs,
-                                           'sequence': seq, 'index': pos})
-                        break
+            jobs.append((kind, pi, root, reqs, seqs, jpath))
+
+    def one(job):
+        rc, out, err = common.run_py(wpath, [job[5]], timeout=600)
+        if rc != 0:
+            raise RuntimeError('api worker failed: ' + err[-1500:])
+        return json.loads(out)
+
+    from concurrent.futures import ThreadPoolExecutor
+    with ThreadPoolExecutor(max_workers=8) as ex:
+        results = list(ex.map(one, jobs))
+    for (kind, pi, root, reqs, seqs, jpath), res in zip(jobs, results):
+        ctx.histogram('project_scenario', kind)
+        for seq, answers in zip(seqs, res['seq']):
+            for pos, (i, a) in enumerate(zip(seq, answers)):
+                ctx.count(('proj', kind, pi, tuple(seq[:pos + 1])), nontrivial=pos > 0)
+                if a != res['fresh'][i]:
+                    bad += 1
+                    if bad <= 5:
+                        files = {os.path.relpath(os.path.join(d, f), root): open(os.path.join(d, f)).read()
+                                 for d, _, fs in os.walk(root) for f in fs if f.endswith('.py')}
+                        ctx.violation('%s project: request %s at %s answered differently after %d earlier requests on the same '
+                                      'Project: %r vs fresh %r' % (kind, reqs[i][0], reqs[i][2], pos, str(a)[:160], str(res['fresh'][i])[:160]),
+                                      {'kind': 'project-history', 'scenario': kind, 'files': files, 'requests': reqs,
+                                       'sequence': seq, 'index': pos})
+                    break
     return bad
 
 
@@ -362,7 +371,7 @@ def run(ctx):
     cdir = os.path.join(common.VERIF, 'corpus', 'C04')
     if os.path.isdir(cdir):
         for f in sorted(os.listdir(cdir)):
-            if f.endswith('.json'):
+            if f.endswith('.json') and not f.startswith('known_'):
                 programs.append(('corpus/' + f, json.load(open(os.path.join(cdir, f)))['source']))
     for i, p in enumerate(fd.HAND_PROGRAMS):
         programs.append(('hand%d.py' % i, p))
